@@ -69,10 +69,12 @@ def _check_axes_merge(self, other):
         other = Axis(other, self.name) # to give it the same methods is_monotonic etc...
     # type
     kind, consistent_kinds = _get_cast_kind(self.values.dtype.kind, other.values.dtype.kind)
+    # (the kind letter alone is a 32-bit type for numpy: 'f' is float32, 'i' is int32)
+    dtype = {'f': np.float64, 'i': np.int64}.get(kind, kind)
     if self.dtype.kind != kind:
-        self = self.cast(kind)
+        self = self.cast(dtype)
     if other.dtype.kind != kind:
-        other = other.cast(kind)
+        other = other.cast(dtype)
     return self, other, consistent_kinds
 
 def _get_cast_kind(kind0, kind1):
